@@ -49,6 +49,23 @@ def run(ctx, rep):
 
     # ---------------- A5.1
     n1 = 0
+    # helpers: fatfs functions all of whose returning paths cross a counter update (e.g. a private
+    # `add_free_clusters(n)`); a call to one counts as the update, with the delta traced through its parameter
+    m0 = Must(facts, lambda f, b, t, names: bool(names & set(COUNTER_UPDATES)))
+    helpers = m0.compute([f for f in fat if f.name not in COUNTER_UPDATES and f.file() != 'src/table.rs'])
+    helper_params = {}
+    for hn in helpers:
+        hf = facts.fns[hn]
+        hd = Deps(hf)
+        ps = set()
+        for b2, t2 in hf.calls():
+            if t2.get('callee') in COUNTER_UPDATES and len(t2['args']) > 1:
+                ps |= {tk[1] for tk in hd.of_operand(t2['args'][1]) if tk[0] == 'param'}
+            if t2.get('callee') in helpers and t2.get('callee') != hn:
+                for j, a in enumerate(t2['args']):
+                    if (j + 1) in helper_params.get(t2['callee'], ()):
+                        ps |= {tk[1] for tk in hd.of_operand(a) if tk[0] == 'param'}
+        helper_params[hn] = ps
     for fn in scope:
         if fn.name == FORMAT or fn.file() == 'src/table.rs':
             continue
@@ -60,7 +77,7 @@ def run(ctx, rep):
         deps = Deps(fn)
         m = Must(facts, lambda f, b, t, names: bool(names & set(COUNTER_UPDATES)) or
                  (t.get('callee') or '').endswith('ctl_counter_update'))
-        cut = m.crossing_edges(fn, set())
+        cut = m.crossing_edges(fn, helpers - {fn.name})
         lab = m._labels(fn)
         for b, t in sites:
             n1 += 1
@@ -79,6 +96,10 @@ def run(ctx, rep):
                         toks = deps.of_operand(t2['args'][1])
                         if ('callsite', b) in toks:
                             uses = True
+                    if t2.get('callee') in helpers and t2.get('callee') != fn.name:
+                        for j, a in enumerate(t2['args']):
+                            if (j + 1) in helper_params.get(t2['callee'], ()) and ('callsite', b) in deps.of_operand(a):
+                                uses = True
                 if not uses:
                     ok = False
                     why = 'the counter update does not use the count returned by the mutator'
